@@ -122,12 +122,8 @@ func (self *Parser) implBlockHead() (ast.ImplBlock, *errors.Error) {
 				return ast.ImplBlock{}, err
 			}
 
-			// If there is a `}`, this was a trailing comma
+			// If there is a `}`, this was a trailing comma (the `}` is consumed below)
 			if self.CurrentToken.Kind == lexer.RCurly {
-				if err := self.next(); err != nil {
-					return ast.ImplBlock{}, err
-				}
-
 				break
 			}
 
